@@ -3,18 +3,21 @@ import Driver.Common
 /-! `hwmodel throttle`: one case per line
 
 ```
-<limit|-> <period> <gap>:<duration>:<outcome>[:<a|b>]*
+<limit|-> <period> <event>*
 limit     number, or `-` = bare `@throttle` (limit 1, period 1 s; the period token is ignored)
 period    f<q> (the float q*0.25) | i<n> (int seconds) | t<n> (timedelta(seconds=n))
           | t<d>,<s>,<ms> (timedelta(days=d, seconds=s, milliseconds=ms), ms a multiple of 250)
-call      all instants in ticks of 0.25 s: gap = ticks since the previous arrival (first: since time
-          0), duration of the wrapped function, outcome v (returns) | e (raises an Exception) | b
-          (raises a BaseException); optional 4th field = whether the harness creates the caller after
-          (a, default) or before (b) the timers due at the arrival instant fire – the model (a FIFO
-          lock) does not depend on it
+event     all instants in ticks of 0.25 s; gap = ticks since the previous event (first: since time 0)
+  call    <gap>:<duration>:<outcome>[:a|b|1|2|3]   duration of the wrapped function, outcome v (returns)
+          | e (raises an Exception) | b (raises a BaseException); the 4th field says when within its
+          instant the harness creates the caller: after everything due then has happened (a, default),
+          before the timers due then fire (b), or k single loop iterations after they began to fire –
+          the model (a FIFO lock) does not depend on it
+  cancel  <gap>:x<i>[:a|b]   cancel the caller of call i (an earlier token) after everything due at that
+          instant has happened (a, default) or before the timers due then fire (b; needs gap > 0)
 ```
 out: `<start>/<caller outcome>/<finish>` per call (`v<i>` / `x<i>` = value / exception object of
-call `i`; `IndexError` when the call died in the wrapper) then `order=<call indices in start order>`. -/
+call `i`, `c` = CancelledError, start `-` = never started; `IndexError` when the call died in the wrapper) then `order=<call indices in start order>`. -/
 namespace Driver.Throttle
 open Haiway.Throttle
 
@@ -29,38 +32,75 @@ def parsePeriod (tok : String) : Option PeriodArg :=
     | _ => none
   else none
 
-def parseCall (idx : Nat) (tok : String) : Option (Nat × Nat × FnOut) :=
+inductive Tok where
+  | call (gap dur : Nat) (out : FnOut)
+  | cancel (gap idx : Nat) (before : Bool)
+
+def parseTok (nCalls : Nat) (tok : String) : Option Tok :=
   match tok.splitOn ":" with
-  | g :: d :: o :: mode =>
-    if mode ≠ [] ∧ mode ≠ ["a"] ∧ mode ≠ ["b"] then none else
-    match g.toNat?, d.toNat?, o with
-    | some g, some d, "v" => some (g, d, .value idx)
-    | some g, some d, "e" => some (g, d, .raised idx)
-    | some g, some d, "b" => some (g, d, .raised idx)
-    | _, _, _ => none
+  | g :: second :: rest =>
+    match g.toNat? with
+    | none => none
+    | some g =>
+      if second.startsWith "x" then
+        match (second.drop 1).toString.toNat?, rest with
+        | some i, [] => if i < nCalls then some (.cancel g i false) else none
+        | some i, ["a"] => if i < nCalls then some (.cancel g i false) else none
+        | some i, ["b"] => if i < nCalls ∧ 0 < g then some (.cancel g i true) else none
+        | _, _ => none
+      else
+        match second.toNat?, rest with
+        | some d, o :: mode =>
+          if mode ≠ [] ∧ mode ≠ ["a"] ∧ mode ≠ ["b"] ∧ mode ≠ ["1"] ∧ mode ≠ ["2"] ∧ mode ≠ ["3"] then none
+          else if o = "v" then some (.call g d (.value nCalls))
+          else if o = "e" ∨ o = "b" then some (.call g d (.raised nCalls))
+          else none
+        | _, _ => none
   | _ => none
 
-def parseCalls (toks : List String) : Option (List (Nat × Nat × FnOut)) :=
-  (toks.zipIdx).mapM fun (tok, i) => parseCall i tok
+structure CallSpec where
+  arrival : Nat
+  dur : Nat
+  out : FnOut
+  cancel : Option Cancel := none
 
-def showCall (r : Res) (dur : Nat) (o : FnOut) : String :=
-  match r, callerOutcome r o with
-  | .started t, .value v => s!"{t}/v{v}/{t + dur}"
-  | .started t, .raised id => s!"{t}/x{id}/{t + dur}"
+/-- tokens in time order → calls with their (first) cancellation request -/
+def parseEvents (toks : List String) : Option (List CallSpec) := do
+  let mut t := 0
+  let mut calls : Array CallSpec := #[]
+  for tok in toks do
+    match parseTok calls.size tok with
+    | none => none
+    | some (.call g d o) =>
+      t := t + g
+      calls := calls.push { arrival := t, dur := d, out := o }
+    | some (.cancel g i before) =>
+      t := t + g
+      match calls[i]? with
+      | some c => if c.cancel.isNone then calls := calls.set! i { c with cancel := some ⟨t, before⟩ }
+      | none => none
+  return calls.toList
+
+def showCall (r : ResC) (c : CallSpec) : String :=
+  match r, callerOutcomeC r c.dur c.out c.cancel with
+  | .ran (.started t), (.value v, some f) => s!"{t}/v{v}/{f}"
+  | .ran (.started t), (.raised id, some f) => s!"{t}/x{id}/{f}"
+  | .ran (.started t), (.cancelled, some f) => s!"{t}/c/{f}"
+  | .cancelledQueued, (_, some f) => s!"-/c/{f}"
+  | .cancelledSleeping, (_, some f) => s!"-/c/{f}"
   | _, _ => "IndexError"
 
 def runCase (line : String) : String :=
   match Driver.words line with
-  | lim :: per :: calls =>
+  | lim :: per :: toks =>
     let bare := lim == "-"
     match (if bare then some 1 else lim.toNat?), (if bare then some (.int 1) else parsePeriod per),
-        parseCalls calls with
+        parseEvents toks with
     | some limit, some period, some cs =>
-      let arrivals := (cs.foldl (fun (acc : List Nat × Nat) c => (acc.1 ++ [acc.2 + c.1], acc.2 + c.1)) ([], 0)).1
-      let rs := run limit period.toTicks init arrivals
-      let shown := (rs.zip cs).map fun (r, c) => showCall r c.2.1 c.2.2
+      let rs := runC limit period.toTicks init (cs.map fun c => (c.arrival, c.cancel))
+      let shown := (rs.zip cs).map fun (r, c) => showCall r c
       let order := ((rs.zipIdx).filterMap fun (r, i) =>
-        match r with | .started _ => some (toString i) | .indexError => none)
+        match r with | .ran (.started _) => some (toString i) | _ => none)
       " ".intercalate shown ++ " order=" ++ ",".intercalate order
     | _, _, _ => "bad-case"
   | _ => "bad-case"
